@@ -43,7 +43,7 @@ func (self *BinaryConv) do(ctx context.Context, src []byte, desc *proto.TypeDesc
 	// when desc is Singular/Map/List
 	if desc.Type() != proto.MESSAGE {
 		wtyp := proto.Kind2Wire[protoreflect.Kind(desc.Type())]
-		return self.doRecurse(ctx, desc, out, resp, &p, wtyp)
+		return self.doRecurse(ctx, desc, out, resp, &p, wtyp, 0)
 	}
 
 	// when desc is Message
@@ -80,7 +80,7 @@ func (self *BinaryConv) do(ctx context.Context, src []byte, desc *proto.TypeDesc
 		*out = json.EncodeString(*out, fd.JSONName())
 		*out = json.EncodeObjectColon(*out)
 		// Parse ProtoData and encode into json format
-		err := self.doRecurse(ctx, fd.Type(), out, resp, &p, typeId)
+		err := self.doRecurse(ctx, fd.Type(), out, resp, &p, typeId, 1)
 		if err != nil {
 			return unwrapError(fmt.Sprintf("converting field %s of MESSAGE %s failed", fd.Name(), fd.Kind()), err)
 		}
@@ -91,14 +91,15 @@ func (self *BinaryConv) do(ctx context.Context, src []byte, desc *proto.TypeDesc
 }
 
 // Parse ProtoData into JSONData by DescriptorType
-func (self *BinaryConv) doRecurse(ctx context.Context, fd *proto.TypeDescriptor, out *[]byte, resp http.ResponseSetter, p *binary.BinaryProtocol, typeId proto.WireType) error {
+// depth is the number of messages the value is nested in
+func (self *BinaryConv) doRecurse(ctx context.Context, fd *proto.TypeDescriptor, out *[]byte, resp http.ResponseSetter, p *binary.BinaryProtocol, typeId proto.WireType, depth int) error {
 	switch {
 	case (*fd).IsList():
-		return self.unmarshalList(ctx, resp, p, typeId, out, fd)
+		return self.unmarshalList(ctx, resp, p, typeId, out, fd, depth)
 	case (*fd).IsMap():
-		return self.unmarshalMap(ctx, resp, p, typeId, out, fd)
+		return self.unmarshalMap(ctx, resp, p, typeId, out, fd, depth)
 	default:
-		return self.unmarshalSingular(ctx, resp, p, out, fd)
+		return self.unmarshalSingular(ctx, resp, p, out, fd, depth)
 	}
 }
 
@@ -106,7 +107,7 @@ func (self *BinaryConv) doRecurse(ctx context.Context, fd *proto.TypeDescriptor,
 // field tag is processed outside before doRecurse
 // Singular format:	[(L)V]
 // Message format: [Length][[Tag][(L)V] [Tag][(L)V]....]
-func (self *BinaryConv) unmarshalSingular(ctx context.Context, resp http.ResponseSetter, p *binary.BinaryProtocol, out *[]byte, fd *proto.TypeDescriptor) (err error) {
+func (self *BinaryConv) unmarshalSingular(ctx context.Context, resp http.ResponseSetter, p *binary.BinaryProtocol, out *[]byte, fd *proto.TypeDescriptor, depth int) (err error) {
 	switch fd.Type() {
 	case proto.BOOL:
 		v, e := p.ReadBool()
@@ -231,6 +232,10 @@ func (self *BinaryConv) unmarshalSingular(ctx context.Context, resp http.Respons
 		}
 		*out = json.EncodeBaniry(*out, v)
 	case proto.MESSAGE:
+		// one level of recursion per nested message: unlimited nesting overflows the stack
+		if depth >= binary.MaxDepth {
+			return wrapError(meta.ErrStackOverflow, "unmarshal Messagekind error", nil)
+		}
 		l, e := p.ReadLength()
 		if e != nil {
 			return wrapError(meta.ErrRead, "unmarshal Byteskind error", e)
@@ -276,7 +281,7 @@ func (self *BinaryConv) unmarshalSingular(ctx context.Context, resp http.Respons
 			*out = json.EncodeObjectColon(*out)
 
 			// parse MessageFieldValue recursive
-			err := self.doRecurse(ctx, fd.Type(), out, resp, p, typeId)
+			err := self.doRecurse(ctx, fd.Type(), out, resp, p, typeId, depth+1)
 			if err != nil {
 				return unwrapError(fmt.Sprintf("converting field %s of MESSAGE %s failed", fd.Name(), fd.Kind()), err)
 			}
@@ -291,7 +296,7 @@ func (self *BinaryConv) unmarshalSingular(ctx context.Context, resp http.Respons
 // parse ListType
 // Packed List format: [Tag][Length][Value Value Value Value Value]....
 // Unpacked List format: [Tag][Length][Value] [Tag][Length][Value]....
-func (self *BinaryConv) unmarshalList(ctx context.Context, resp http.ResponseSetter, p *binary.BinaryProtocol, typeId proto.WireType, out *[]byte, fd *proto.TypeDescriptor) (err error) {
+func (self *BinaryConv) unmarshalList(ctx context.Context, resp http.ResponseSetter, p *binary.BinaryProtocol, typeId proto.WireType, out *[]byte, fd *proto.TypeDescriptor, depth int) (err error) {
 	*out = json.EncodeArrayBegin(*out)
 
 	fileldNumber := fd.BaseId()
@@ -304,7 +309,7 @@ func (self *BinaryConv) unmarshalList(ctx context.Context, resp http.ResponseSet
 		start := p.Read
 		// parse Value repeated
 		for p.Read < start+len {
-			if err := self.unmarshalSingular(ctx, resp, p, out, fd.Elem()); err != nil {
+			if err := self.unmarshalSingular(ctx, resp, p, out, fd.Elem(), depth); err != nil {
 				return err
 			}
 			if p.Read != start && p.Read != start+len {
@@ -317,7 +322,7 @@ func (self *BinaryConv) unmarshalList(ctx context.Context, resp http.ResponseSet
 		}
 	} else {
 		// unpackedList(format)：[Tag][Length][Value] [Tag][Length][Value]....
-		if err := self.unmarshalSingular(ctx, resp, p, out, fd.Elem()); err != nil {
+		if err := self.unmarshalSingular(ctx, resp, p, out, fd.Elem(), depth); err != nil {
 			return err
 		}
 		for p.Read < len(p.Buf) {
@@ -332,7 +337,7 @@ func (self *BinaryConv) unmarshalList(ctx context.Context, resp http.ResponseSet
 			}
 			*out = json.EncodeArrayComma(*out)
 			p.Read += tagLen
-			if err := self.unmarshalSingular(ctx, resp, p, out, fd.Elem()); err != nil {
+			if err := self.unmarshalSingular(ctx, resp, p, out, fd.Elem(), depth); err != nil {
 				return err
 			}
 		}
@@ -345,7 +350,7 @@ func (self *BinaryConv) unmarshalList(ctx context.Context, resp http.ResponseSet
 // parse MapType
 // Map bytes format: [Pairtag][Pairlength][keyTag(L)V][valueTag(L)V] [Pairtag][Pairlength][T(L)V][T(L)V]...
 // Pairtag = MapFieldnumber << 3 | wiretype:BytesType
-func (self *BinaryConv) unmarshalMap(ctx context.Context, resp http.ResponseSetter, p *binary.BinaryProtocol, typeId proto.WireType, out *[]byte, fd *proto.TypeDescriptor) (err error) {
+func (self *BinaryConv) unmarshalMap(ctx context.Context, resp http.ResponseSetter, p *binary.BinaryProtocol, typeId proto.WireType, out *[]byte, fd *proto.TypeDescriptor, depth int) (err error) {
 	fileldNumber := (*fd).BaseId()
 	_, lengthErr := p.ReadLength()
 	if lengthErr != nil {
@@ -370,7 +375,7 @@ func (self *BinaryConv) unmarshalMap(ctx context.Context, resp http.ResponseSett
 	if quoteKey {
 		*out = append(*out, '"')
 	}
-	if e := self.unmarshalSingular(ctx, resp, p, out, mapKeyDesc); e != nil {
+	if e := self.unmarshalSingular(ctx, resp, p, out, mapKeyDesc, depth); e != nil {
 		return unwrapError("parse MapKey Value error", e)
 	}
 	if quoteKey {
@@ -382,7 +387,7 @@ func (self *BinaryConv) unmarshalMap(ctx context.Context, resp http.ResponseSett
 		return wrapError(meta.ErrRead, "parse MapValue Tag error", valueErr)
 	}
 	mapValueDesc := fd.Elem()
-	if e := self.unmarshalSingular(ctx, resp, p, out, mapValueDesc); e != nil {
+	if e := self.unmarshalSingular(ctx, resp, p, out, mapValueDesc, depth); e != nil {
 		return unwrapError("parse MapValue Value error", e)
 	}
 
@@ -411,7 +416,7 @@ func (self *BinaryConv) unmarshalMap(ctx context.Context, resp http.ResponseSett
 		if quoteKey {
 			*out = append(*out, '"')
 		}
-		if e := self.unmarshalSingular(ctx, resp, p, out, mapKeyDesc); e != nil {
+		if e := self.unmarshalSingular(ctx, resp, p, out, mapKeyDesc, depth); e != nil {
 			return unwrapError("parse MapKey Value error", e)
 		}
 		if quoteKey {
@@ -422,7 +427,7 @@ func (self *BinaryConv) unmarshalMap(ctx context.Context, resp http.ResponseSett
 		if valueErr != nil {
 			return wrapError(meta.ErrRead, "parse MapValue Tag error", valueErr)
 		}
-		if e := self.unmarshalSingular(ctx, resp, p, out, mapValueDesc); e != nil {
+		if e := self.unmarshalSingular(ctx, resp, p, out, mapValueDesc, depth); e != nil {
 			return unwrapError("parse MapValue Value error", e)
 		}
 	}
